@@ -2,6 +2,7 @@
    Only statements: every proof is [exact <lemma>], followed by Print Assumptions. *)
 From Coq Require Import ZArith QArith Qminmax List Bool.
 From SB3V Require Import Model.Script Gen.Frag_onpolicy Model.OnPolicyCollect Proofs.OnPolicyCollectProofs.
+From SB3V Require Import Model.Gae Model.Pipeline Proofs.PipelineProofs.
 Import ListNotations.
 Local Open Scope Z_scope.
 
@@ -119,6 +120,40 @@ Theorem C06_fragment_sde : forall u f j, onp_sde_guard u f j = sde_resample u f 
 Proof. exact frag_sde_guard. Qed.
 Print Assumptions C06_fragment_sde.
 
+(* ---- composition with C05: collect_rollouts followed by compute_returns_and_advantage ---- *)
+
+(* the column (rewards, values, episode_starts, last_values, dones) that collection hands to the GAE loop is, cell by cell:
+   reward = env reward + gamma*V(terminal obs) exactly on truncated-and-not-terminated steps, value = the policy's value of the
+   observation it saw, next value = the next slot's value / last_values, non-terminal = 1 - done of that same step *)
+Theorem C06_pipeline_cells : forall ak gamma sc st ps lv,
+  pipeline_cells ak gamma sc st ps lv = spec_cells gamma sc st ps lv.
+Proof. exact pipeline_cells_spec. Qed.
+Print Assumptions C06_pipeline_cells.
+
+(* hence the advantage stored for step t of env column e is the discounted sum of the GAE definition over those cells,
+   for every script, n_steps, oracle and gamma / lambda *)
+Theorem C06_pipeline_advantage : forall ak gamma lam sc st ps lv t,
+  (nth t (pipeline_adv ak gamma lam sc st ps lv) 0 == adv_def gamma lam (skipn t (spec_cells gamma sc st ps lv)))%Q.
+Proof. exact onpolicy_pipeline. Qed.
+Print Assumptions C06_pipeline_advantage.
+
+(* rollout r of a learn(): the same, from the state reached after all earlier steps (last observation / episode start carried) *)
+Theorem C06_pipeline_rollouts : forall ak gamma lam sc rs lvs st r ps lv advs,
+  nth_error rs r = Some ps -> nth_error lvs r = Some lv ->
+  nth_error (pipeline_rollouts ak gamma lam sc st rs lvs) r = Some advs ->
+  let st_r := state_at sc st (length (concat (firstn r rs))) in
+  advs = pipeline_adv ak gamma lam sc st_r ps lv /\
+  forall t, (nth t advs 0 == adv_def gamma lam (skipn t (spec_cells gamma sc st_r ps lv)))%Q.
+Proof. exact onpolicy_pipeline_rollouts. Qed.
+Print Assumptions C06_pipeline_rollouts.
+
+(* env independence at the pipeline level: the vectorised loop over rows of cells gives, in column e, the pipeline of env e *)
+Theorem C06_pipeline_env_independent : forall gamma lam (cols : list (list stp)) T e,
+  Forall (fun c => length c = T) cols -> (e < length cols)%nat ->
+  column e 0%Q (gae_rows gamma lam (length cols) (rows_of_cols cols T)) = gae_code gamma lam (nth e cols []).
+Proof. exact pipeline_env_independent. Qed.
+Print Assumptions C06_pipeline_env_independent.
+
 (* ---- non-vacuity ---- *)
 Definition ex_sc : script :=
   [mk_episode 10 0 [mk_sstep 11 4 false false 0; mk_sstep 12 (-8) false true 0];     (* truncated *)
@@ -137,3 +172,11 @@ Proof. vm_compute. reflexivity. Qed.
 
 Example C06_ex_sde : sde_calls true 3 8 = [0; 0; 3; 6] /\ sde_calls true (-1) 8 = [0] /\ sde_calls false 2 8 = [].
 Proof. repeat split; reflexivity. Qed.
+
+(* pipeline on the example script: second step is truncated (bootstrapped with V = 100, gamma = 1/2), non-terminal flag 0 there *)
+Example C06_ex_pipeline :
+  let st := col_reset ex_sc cstate0 in
+  map (fun c => (Qred (s_r c), Qred (s_v c), Qred (s_nv c), Qred (s_nnt c))) (pipeline_cells ActId (1 # 2) ex_sc st [ex_pol 0; ex_pol 1] 7) =
+  [(1%Q, 0%Q, 1%Q, 1%Q); (48%Q, 1%Q, 7%Q, 0%Q)] /\
+  map Qred (pipeline_adv ActId (1 # 2) 1 ex_sc st [ex_pol 0; ex_pol 1] 7) = [25%Q; 47%Q].
+Proof. vm_compute. split; reflexivity. Qed.
